@@ -16,6 +16,7 @@ mod spec;
 mod syncdrive;
 mod wire;
 
+mod c01;
 mod c02;
 mod c15;
 mod c16;
@@ -95,6 +96,7 @@ fn main() {
     let id: &'static str = Box::leak(prop.clone().into_boxed_str());
     let ctx = Ctx::new(id, seed, tier, scale, threads, out, replay, verbose);
     let code = match prop.as_str() {
+        "C01" => c01::run(&ctx, evidence.as_ref()),
         "C02" => c02::run(&ctx, evidence.as_ref()),
         "C15" => c15::run(&ctx, evidence.as_ref()),
         "C16" => c16::run(&ctx, evidence.as_ref()),
